@@ -124,6 +124,12 @@ def win_cases(seed, big):
                          for _ in range(rng.randint(1, 3))]
         out.append({"id": "w%d" % i, "kind": "win", "argv": argv})
         i += 1
+    # every argument of up to four units over backslash / quote / letter / blank, no sampling (runs of backslashes that fill
+    # the whole stretch before a quote, between two quotes, behind the last one)
+    for k in (1, 2, 3, 4):
+        for t in itertools.product([92, 34, 97, 32], repeat=k):
+            out.append({"id": "w%d" % i, "kind": "win", "argv": [[97], list(t)]})
+            i += 1
     # units that are not text at all: unpaired UTF-16 surrogates (legal in Windows strings, e.g. ill-formed file names),
     # alone, reversed pairs, beside the characters that force quoting
     sur = [0xD83D, 0xDC00, 0xDBFF, 0xDFFF]
